@@ -13,7 +13,7 @@ THEOREMS_C13 = ["Slock.C13T." + t for t in (
     "set_ex_rejected", "append_px_rejected", "setex_short_rejected", "incr_ex_rejected",
     "convert_no_panic_read", "convert_no_panic_expire", "convert_no_panic_set", "convert_no_panic_setex",
     "convert_no_panic_incr", "convert_no_panic", "parser_no_panic_on_built",
-    "handlers_no_oob", "handlers_registry_seen", "value_readers_total")]
+    "handlers_no_oob", "handlers_registry_seen", "dbs_index_guarded", "value_readers_total")]
 THEOREMS = THEOREMS_C14 + THEOREMS_C13
 FINISH = {"level": "proof", "assumptions": [
     "MD5 is an opaque function returning 16 bytes in the theorems (the driver's executable MD5 is compared with crypto/md5 byte for byte)",
@@ -82,7 +82,7 @@ def run_text(ctx):
     _run(ctx, ("C14:",), [("Slock.Properties.C14Text", THEOREMS_C14)], ["Slock.Properties.C14Text"])
 
 
-TH_FILES = ["zz_verif_texthandlers_test.go", "zz_verif_engine_test.go", "zz_verif_engine_monitor_test.go", "zz_verif_engine_replay_test.go"]
+TH_FILES = ["zz_verif_callhandlers_test.go", "zz_verif_texthandlers_test.go", "zz_verif_engine_test.go", "zz_verif_engine_monitor_test.go", "zz_verif_engine_replay_test.go"]
 
 
 def classify_th(op, impl):
@@ -109,6 +109,11 @@ def run_texthandlers(ctx):
         d = dis[0]
         ctx.broken.append({"kind": "correspondence", "name": "value-reader model vs real LockResultCommandData readers",
                            "detail": f"{len(dis)} disagreements; first: op={d[1][:300]} impl={d[2][:300]} model={d[3][:300]}"})
+    # the binary CALL layer: every registered call method × bodies, CALL frames through Process() (harness mode `callhandlers`)
+    outdir = ctx.run_harness(exe, "callhandlers", 10 if ctx.tier == "quick" else 200, timeout=900)
+    if outdir:
+        ctx.diff(outdir, "callhandlers", classify=classify_th)
+        _monitors(ctx, outdir, "callhandlers", ("C13:",))
 
 
 def run_text_c13(ctx):
